@@ -46,7 +46,7 @@ ALL_EXT = {e: f for f, es in WRITE_EXT.items() for e in es}
 
 DEST_STATES = ['absent', 'missing_dir', 'file_empty', 'file_junk',
                'symlink_file', 'symlink_dangling', 'symlink_dir', 'directory',
-               'reuse']
+               'reuse', 'badname']
 FAULTS = ['none', 'elem', 'bad_option', 'warn_elem', 'unencodable',
           'nonascii_ok']
 
@@ -256,6 +256,11 @@ def gen_step(rng, fmt, dest_state, overwrite, fault, encoding, names, idx):
             label['resolution'] = 'explicit'
     elif dest_state == 'missing_dir':
         name = f'nodir{idx}/' + os.path.basename(name)
+    elif dest_state == 'badname':
+        # a name the file system cannot take: the write must fail cleanly
+        root, ext_ = os.path.splitext(os.path.basename(name))
+        name = sub + rng.pick([root + 'x' * 300 + ext_,
+                               root + '\x00' + ext_])
     elif dest_state == 'file_empty':
         prep.append({'op': 'mkfile', 'path': name, 'content': 'empty'})
     elif dest_state == 'file_junk':
@@ -797,7 +802,7 @@ def abstract_states(result):
 
 # ------------------------------------------------------ driver interface
 RULE = ('seeded search: run i is assigned cell (i mod #cells) of format x '
-        'destination-state x overwrite x fault-kind (all 324 cells), the '
+        'destination-state x overwrite x fault-kind (all 360 cells), the '
         'remaining 0-3 steps, list lengths, failing position, API, format '
         'resolution, options and ambient configuration are drawn from the '
         'run seed. A state is the tuple (format, api, destination entry '
